@@ -376,13 +376,15 @@ MANIFEST_TEXT = {
     "C07": {
         "text": "Kernel-checked on every run for all inputs: the parser skeleton regenerated from parser.rs (36 functions: ordered "
                 "alternatives, consumed tokens, sub-parses) implements exactly the productions regenerated from grammar.y; committed "
-                "sub-parses are ordered choices; every function is memoised. Acceptance iff sentence, the tree with left-associated chains "
+                "sub-parses are ordered choices; every function is memoised; and every token list the parser model accepts is a sentence of the "
+                "context-free grammar regenerated from grammar.y (parse_sound, by an invariant through the skeleton interpreter, error "
+                "recovery and the memo table). Acceptance iff sentence, the tree with left-associated chains "
                 "and honoured parentheses, full consumption and names are decided by running the extracted executable parser model and an "
                 "Earley recogniser of grammar.y against the implementation on all short token sequences, grammar derivations and their "
-                "single-token edits. Partial proof: soundness/completeness of the model against a derivation relation is not yet a theorem.",
+                "single-token edits. Partial proof: completeness of the model (every sentence is accepted) and the tree shape are not theorems.",
         "design_ref": "DESIGN.md section 4, C07",
         "note": "Trusted: Coq kernel, the skeleton/grammar translator, extraction, OCaml driver + Earley oracle, harness.",
-        "technique": "generated skeleton-vs-grammar obligations (vm_compute) + extracted packrat model differential testing + Earley completeness oracle",
+        "technique": "Coq proof that the parser model accepts only sentences of the generated grammar + generated skeleton-vs-grammar obligations (vm_compute) + extracted packrat model differential testing + Earley completeness oracle",
     },
     "C08": {
         "text": "The scoping rules are a short stack-of-names function in Coq (scope_spec). Proved for every tree: the mirror of "
@@ -489,9 +491,11 @@ MANIFEST_TEXT = {
         "text": "Per-instance validation with a proved conversion test: after each successful unification the recorded solutions are "
                 "substituted and the two sides must be certified definitionally equal (convb_sound); solutions must be closed and the store "
                 "acyclic; unify(t,t) on hole-free t must succeed (mirror: convb_refl). Hole-punched pairs at every position and depth, "
-                "occurs-check and scope-escape configurations. D9 is a recorded finding.",
+                "occurs-check (direct and through cells solved earlier) and scope-escape configurations. Proved of Model B (compared with "
+                "the implementation's verdict and store on every case): unification and type checking only extend the store - a recorded "
+                "solution is never changed - and the cell unify assigns is unsolved. D9 is a recorded finding.",
         "design_ref": "DESIGN.md section 4, C12",
-        "note": "Store invariants of a Model B mirror are future work; the validation is on the implementation's own store.",
+        "note": "Consistency (store only grows) is a theorem of Model B; acyclicity and scope are validated on the implementation's own store.",
         "technique": "translation validation of unify results with a Coq-verified conversion test + store scope/acyclicity checks on hole-punched pairs",
     },
     "C18": {
@@ -507,11 +511,12 @@ MANIFEST_TEXT = {
     },
     "C19": {
         "text": "Proved on the evaluator model: the if-true wrapper, the applied identity and an unused value definition evaluate to the "
-                "wrapped expression (the last through a proved de Bruijn law). All rewrites of the property, and sequences of them, are "
+                "wrapped expression (the last through a proved de Bruijn law); name resolution is invariant under every injective renaming of "
+                "identifiers that fixes `_`, e.g. swapping a bound name with a fresh one (scope_spec_rename). All rewrites of the property, and sequences of them, are "
                 "checked as metamorphic relations on the implementation itself for generated programs at random applicable sites "
                 "(acceptance and value). One genuine violation is a recorded finding (D15).",
         "design_ref": "DESIGN.md section 4, C19",
         "note": "Partial proof: acceptance-side invariance is decided by the stream.",
-        "technique": "Coq proofs of the evaluation-side rewrite laws + metamorphic testing of all rewrites and rewrite sequences on the implementation",
+        "technique": "Coq proofs of the evaluation-side rewrite laws and of renaming invariance of name resolution + metamorphic testing of all rewrites and rewrite sequences on the implementation",
     },
 }
